@@ -116,6 +116,37 @@ def geometry(rep, tier, timeout):
             run_obligations(rep, "Taper mirror [%s]" % lab, obs, timeout, replay=rpt, family=lambda ob: "geometry: " + ob.meta["family"], nominal=nominal, fixed={"taper": 0.5})
 
 
+def monotonic(rep, tier, timeout):
+    """MonotonicConstraint on a full-span surface: the reversed spanwise distribution gives the reversed constraint vector, and
+    its left half is what the left-half (symmetric) model reports for the same stations."""
+    for ny in ([3, 5] if tier == "quick" else [3, 5, 7]):
+        h = (ny - 1) // 2
+        scF = SymComp("geometry.monotonic_constraint", "MonotonicConstraint", var_name="chord", surface=K.surface(2, ny, False))
+        scH = SymComp("geometry.monotonic_constraint", "MonotonicConstraint", var_name="chord", surface=K.surface(2, h + 1, True))
+        rep.encode(type(scF.comp))
+        iname, oname = scF.in_names[0], scF.out_names[0]
+        x = symarray(iname, (ny,))
+        oA = np.asarray(scF.sym1({iname: x})[oname], dtype=object).ravel()
+        oB = np.asarray(scF.sym1({iname: x[::-1].copy()})[oname], dtype=object).ravel()
+        oH = np.asarray(scH.sym1({iname: x[: h + 1].copy()})[oname], dtype=object).ravel()
+        fam = "MonotonicConstraint (full span): the mirror-image distribution gives the mirror-image constraint"
+        obs = [oblig.Ob("mirror %s[%d] ny=%d" % (oname, j, ny), lhs=S(oB[j]), rhs=S(oA[ny - 2 - j]), meta={"family": fam, "kind": "mirror", "idx": [j]}) for j in range(ny - 1)]
+        obs += [oblig.Ob("left half %s[%d] ny=%d" % (oname, j, ny), lhs=S(oA[j]), rhs=S(oH[j]),
+                         meta={"family": "MonotonicConstraint: the left half of the full-span constraint is the left-half model's constraint", "kind": "half", "idx": [j]}) for j in range(h)]
+
+        def rp(ob, env, scF=scF, scH=scH, x=x, ny=ny, h=h, iname=iname, oname=oname):
+            xv = np.asarray(num_inputs({iname: x}, model.FillEnv(env))[iname], dtype=float)
+            a = np.ravel(scF.real({iname: xv})[oname])
+            j = ob.meta["idx"][0]
+            if ob.meta["kind"] == "mirror":
+                b = np.ravel(scF.real({iname: xv[::-1].copy()})[oname])
+                return model.differs(b[j], a[ny - 2 - j], 1e-9), "full span ny=%d, %s = %s: constraint %s; reversed distribution gives %s" % (ny, iname, xv.tolist(), a.tolist(), b.tolist())
+            c = np.ravel(scH.real({iname: xv[: h + 1].copy()})[oname])
+            return model.differs(a[j], c[j], 1e-9), "ny=%d, %s = %s: full-span constraint %s, left-half model %s" % (ny, iname, xv.tolist(), a.tolist(), c.tolist())
+
+        run_obligations(rep, "MonotonicConstraint mirror [ny=%d]" % ny, obs, timeout, replay=rp, family=lambda ob: "geometry: " + ob.meta["family"])
+
+
 def structures(rep, tier, timeout):
     nys = [3] if tier == "quick" else [3, 5]
     for ny in nys:
@@ -303,6 +334,7 @@ def run(tier, seed, only=None):
         aero_mixed(rep, tier, timeout)
     if not only or "geom" in only:
         geometry(rep, tier, timeout)
+        monotonic(rep, tier, timeout)
     if not only or "struct" in only:
         structures(rep, tier, timeout)
     rep.assumptions = ["real arithmetic", "mirror operator: y -> -y, spanwise order reversed, axial vectors (rotations, moments) transform with the opposite sign pattern",
